@@ -706,10 +706,15 @@ class XsdAttributeGroup(
                     context.validation_error(validation, self, reason, obj)
                     continue
             else:
-                if xsd_attribute.use == 'prohibited' and xsd_attribute.fixed is None and \
-                        (None not in self or not self._attribute_group[None].is_matching(name)):
-                    reason = _("use of attribute %r is prohibited") % name
-                    context.validation_error(validation, self, reason, obj)
+                if xsd_attribute.use == 'prohibited' and xsd_attribute.fixed is None:
+                    if None in self and self._attribute_group[None].is_matching(name):
+                        # A prohibited use is not a use: the attribute is validated
+                        # by the wildcard that admits its name.
+                        xsd_attribute = self._attribute_group[None]
+                        value = (name, value)
+                    else:
+                        reason = _("use of attribute %r is prohibited") % name
+                        context.validation_error(validation, self, reason, obj)
 
             context.attribute = name
             item = xsd_attribute.raw_decode(value, validation, context)
